@@ -82,8 +82,12 @@ func needsCare(r wm.Rec) bool {
 }
 
 // parse reads one record from text the way a zone file consumer would.
+// The record is followed by a sentinel record on the next line: a reader that consumes more (or
+// less) than its own line shows up as a damaged or missing sentinel.
+const sentinel = "sentinel.c05.\t7\tIN\tA\t192.0.2.7"
+
 func parse(text string) (dns.RR, error) {
-	zp := dns.NewZoneParser(strings.NewReader(text+"\n"), ".", "c05")
+	zp := dns.NewZoneParser(strings.NewReader(text+"\n"+sentinel+"\n"), ".", "c05")
 	rr, ok := zp.Next()
 	if !ok {
 		if err := zp.Err(); err != nil {
@@ -91,8 +95,15 @@ func parse(text string) (dns.RR, error) {
 		}
 		return nil, fmt.Errorf("no record in text")
 	}
+	s, ok := zp.Next()
+	if !ok {
+		return nil, fmt.Errorf("the record after this one is lost or rejected: %v", zp.Err())
+	}
+	if s.String() != sentinel {
+		return nil, fmt.Errorf("text denotes more than one record, or damages the record after it (next record read: %s)", s)
+	}
 	if extra, ok := zp.Next(); ok {
-		return nil, fmt.Errorf("text denotes more than one record (second: %s)", extra)
+		return nil, fmt.Errorf("text denotes more than one record (third: %s)", extra)
 	}
 	if err := zp.Err(); err != nil {
 		return nil, err
@@ -188,8 +199,8 @@ func longOrShortName(t *rapid.T) wm.Name {
 }
 
 func genRec(t *rapid.T) recCase {
-	o := &gen.Opts{Level: gen.Presentable, Types: textTypes(), Unknown: true, MaxBlob: 40}
-	o.Avoid = map[string]bool{}
+	o := &gen.Opts{Level: gen.Presentable, Types: textTypes(), Unknown: true, MaxBlob: 40, BigBlob: true}
+	o.Avoid = map[string]bool{"octet-over-255-text": pbt.Known("octet-over-255-text")}
 	o.Excluded = pbt.Excluded
 	o.NameGen = longOrShortName
 	r := gen.Rec(t, o)
@@ -522,6 +533,9 @@ func blankInName(rr dns.RR) bool {
 }
 
 func init() {
+	pbt.Probe("octet-over-255-text", func() error {
+		return checkRec(recCase{R: wm.Rec{Name: wm.MustName("a."), Type: wm.TURI, Class: 1, TTL: 5, Fields: []wm.Field{{K: wm.U16, U: 1}, {K: wm.U16, U: 1}, {K: wm.Rest, B: bytes.Repeat([]byte("u"), 256)}}}})
+	})
 	pbt.Probe("name-token-with-blank", func() error {
 		in := `a. 0 IN NAPTR 0 0 "" ""` + strings.Repeat(".", 257) + `" "" .`
 		rr, err := parse(in)
